@@ -251,13 +251,42 @@ def cloud_events(ns, rng, tid0, tier):
     return events, tid
 
 
+def ecologits_table():
+    """(provider, model name) -> (active, total) parameters in billions, read from the EcoLogits data file itself: a number, a
+    range (its middle), or a mixture of experts with its own total and active counts"""
+    import json as _json, os as _os, ecologits as _eco
+    data = _json.load(open(_os.path.join(_os.path.dirname(_eco.__file__), "data", "models.json")))
+
+    def mid(x):
+        return (x["min"] + x["max"]) / 2 if isinstance(x, dict) else x
+    table = {}
+    for m in data["models"]:
+        par = m["architecture"]["parameters"]
+        if isinstance(par, dict) and "total" in par:
+            table[(m["provider"], m["name"])] = (mid(par["active"]), mid(par["total"]))
+        else:
+            table[(m["provider"], m["name"])] = (mid(par), mid(par))
+    for a in data.get("aliases", []):
+        key = (a["provider"], a["alias"])
+        if (a["provider"], a["name"]) in table:
+            table[(a["provider"], a["alias"])] = table[(a["provider"], a["name"])]
+    return table
+
+
 def genai_events(ns, rng, tid0, tier):
     c = ns.classes
     events, tid = [], tid0
     cond = c["GenAIModel"].conditional_list_values()["model_name"]["conditional_list_values"]
     combos = [(p.value, m.value) for p, ms in cond.items() for m in ms]
     rng.shuffle(combos)
-    for provider, model in (combos[:60] if tier == "thorough" else combos[:5]):
+    try:
+        table = ecologits_table()
+    except Exception as ex:   # noqa
+        raise MachineryError(f"the EcoLogits data file cannot be read independently: {ex!r}")
+    # mixtures of experts (total and active parameters differ) first: two of them in every run
+    moe = [x for x in combos if x in table and table[x][0] != table[x][1]]
+    combos = moe[:2] + [x for x in combos if x not in moe[:2]]
+    for provider, model in (combos[:60] if tier == "thorough" else combos[:6]):
         tid += 1
         tokens = rng.choice([100, 1000, 2500])
 
@@ -283,6 +312,9 @@ def genai_events(ns, rng, tid0, tier):
                  ("genai-gpus = factor x active x bits / RAM per GPU", base(ns, job.compute_needed, "gpu"),
                   factor * active * bits / base(ns, gpu.ram_per_gpu, "bit/gpu")),
                  ("genai-base-ram = factor x total x bits", base(ns, svc.base_ram_consumption, "bit"), factor * total * bits)]
+        if (provider, model) in table:
+            rules += [("genai-active-params = EcoLogits table row", active, table[(provider, model)][0] * 1e9),
+                      ("genai-total-params = EcoLogits table row", total, table[(provider, model)][1] * 1e9)]
         for rule, got, want in rules:
             lhs, rhs, e = seven_digits(got, want)
             events.append({"tid": tid, "seq": len(events), "ev": "Approx", "rule": rule, "lhs": lhs, "rhs": rhs, "exp": e})
